@@ -10,7 +10,7 @@
    (tied by the correspondence run over five enums); API-mode arguments through _cffi_to_c_int / _cffi_to_c__Bool whose range
    tests are regenerated from the source text (C03/Gen.v) and evaluated with C semantics. *)
 From Coq Require Import ZArith List Bool String Lia.
-From Cffi Require Import C03.CExpr C03.Gen C03.Model C03.Proofs.
+From Cffi Require Import C03.CExpr C03.IR C03.Gen C03.Model C03.Interp C03.Proofs.
 Import ListNotations.
 Open Scope Z_scope.
 
@@ -104,6 +104,33 @@ Theorem C03_callback_exact : forall T v E garbage, wf_ity T -> in_range T E = tr
 Proof. exact callback_exact. Qed.
 Print Assumptions C03_callback_exact.
 
+(* the statements of convert_from_object's integer branches as they stand in the source
+   (regenerated: which helper and strict flag, every write and its destination, every
+   `goto overflow` test, their order), executed, ARE the hand model above — for all T, v, data *)
+Theorem C03_gen_store_refines : forall T v data, gen_store T v data = convert_from_object_int T v data.
+Proof. exact gen_store_refines. Qed.
+Print Assumptions C03_gen_store_refines.
+
+(* the target is written only after the range check succeeded: no statement that can fail follows
+   a write to `data`, no test reads `data`; and whenever the executed statements do not succeed
+   the target bytes are the old ones *)
+Theorem C03_gen_store_writes_after_checks :
+  data_written_last store_signed_prog = true /\ data_written_last store_unsigned_prog = true.
+Proof. exact gen_store_writes_after_checks. Qed.
+Print Assumptions C03_gen_store_writes_after_checks.
+
+Theorem C03_gen_store_failure_pure : forall T v data, wf_ity T ->
+  fst (gen_store T v data) <> Ok tt -> snd (gen_store T v data) = data.
+Proof. exact gen_store_failure_pure. Qed.
+Print Assumptions C03_gen_store_failure_pure.
+
+(* likewise the narrow-result blocks of convert_from_object_fficallback (first conversion only to
+   detect overflow, then a whole sign-extended ffi_arg; zero-fill then plain conversion) *)
+Theorem C03_gen_fficallback_refines : forall T v result,
+  gen_fficallback T v result = convert_from_object_fficallback T v result.
+Proof. exact gen_fficallback_refines. Qed.
+Print Assumptions C03_gen_fficallback_refines.
+
 (* non-vacuity: the hypotheses are met by the platform's types, and both outcomes occur *)
 Example C03_ex_wf : wf_ity (mk_ity 4 true false) /\ wf_ity (mk_ity 1 false true) /\
                     api_sizes (mk_ity 8 false false).
@@ -119,3 +146,7 @@ Example C03_ex_api : api_arg (mk_ity 4 false false) (2 ^ 32 - 1) = Ok (2 ^ 32 - 
 Proof. vm_compute. repeat split. Qed.
 Example C03_ex_callback : callback_received (mk_ity 2 true false) 40000 (-7) (repeat 170 8) = Ok (-7, true).
 Proof. vm_compute. reflexivity. Qed.
+Example C03_ex_gen_store : gen_store (mk_ity 1 false false) 261 [255] = (Err OverflowError, [255]) /\
+                           gen_store (mk_ity 2 true false) (-2) [0; 0] = (Ok tt, [254; 255]) /\
+                           gen_fficallback (mk_ity 2 true false) (-2) (repeat 170 8) = (Ok tt, [254; 255; 255; 255; 255; 255; 255; 255]).
+Proof. vm_compute. repeat split. Qed.
